@@ -13,6 +13,9 @@ fn case(src: &mut Src, ctx: &mut Ctx) -> Result<(), Fail> {
     ctx.note(|| format!("{:?}", cfg));
     let mut w = World::new(cfg);
     w.check_deadline_invariant = true;
+    // the contract: polled "no later than the instant it last returned from poll_at" - this
+    // driver polls at exactly that instant, also when it is the present one
+    w.strict_schedule = true;
     // generous horizon: faults end after a bounded number of frames; allow 3 h of virtual time
     let horizon: i64 = 3 * 3600 * 1_000_000;
     let end = w.run(src, ctx, 60_000, horizon)?;
@@ -70,7 +73,7 @@ pub fn prop() -> Prop {
         parts: vec![Part { name: "progress", case, quick: 6_000, thorough: 300_000 }],
         phases: vec![],
         smoltcp_panic_is_violation: true,
-        rule: "the C01 two-endpoint world, but link faults (drop/duplicate/delay/reorder/bit flip/outage) apply only to the first 0..400 frames of each direction, after which delivery is reliable and in order; both applications write their stream, read with pauses (zero windows) and close; each node is polled only when a frame arrives, at the instant its last poll_at named, and right after socket API calls; checked: (a) after every poll, unacknowledged data/SYN/FIN implies a finite Interface::poll_at; (b) the closed world never becomes quiescent (no frame in flight, no deadline, no app wake-up) before both transfers and the shutdown handshake completed; (c) no 30 virtual minutes without application progress once the link is reliable; non-trivial = a fault hit a segment occupying sequence space and at least one retransmission was observed; distinct by digest",
+        rule: "(driver: each node is polled when a frame arrives and at exactly the instant poll_at last returned - also when that is the present instant; three such polls in a row that neither send, receive nor involve the application while poll_at does not advance are a stuck connection) the C01 two-endpoint world, but link faults (drop/duplicate/delay/reorder/bit flip/outage) apply only to the first 0..400 frames of each direction, after which delivery is reliable and in order; both applications write their stream, read with pauses (zero windows) and close; each node is polled only when a frame arrives, at the instant its last poll_at named, and right after socket API calls; checked: (a) after every poll, unacknowledged data/SYN/FIN implies a finite Interface::poll_at; (b) the closed world never becomes quiescent (no frame in flight, no deadline, no app wake-up) before both transfers and the shutdown handshake completed; (c) no 30 virtual minutes without application progress once the link is reliable; non-trivial = a fault hit a segment occupying sequence space and at least one retransmission was observed; distinct by digest",
         assumptions: vec![
             "liveness is decided exactly as deadlock of the closed simulated world (the harness owns the clock); hitting the 60000-event / 3 h cap with recent progress is counted inconclusive, never a violation",
             "both applications always close, so completion means both sockets reach CLOSED or TIME-WAIT and both readers saw Finished",
